@@ -809,11 +809,13 @@ func checkEnvelope(r *Run, p *packages.Package, cg *CallGraph, decls map[string]
 	} else {
 		r.Undecide("C20-R5: archiveFrameAAD not found")
 	}
-	rn := decls["encryptedArchiveReader.readNextFrame"]
+	// the frame reader: the function that opens (decrypts) a frame behind an error gate — found by that, not by its name
+	rn := envelopeFrameReader(p)
 	if rn == nil {
-		r.Undecide("C20-R5: readNextFrame not found")
+		r.Undecide("C20-R5: the frame reader (a function with an error-gated AEAD Open call) was not found")
 		return
 	}
+	eofGate := envelopeEOFGate(p, rn)
 	// Open is called with archiveFrameAAD(...) and error-gated
 	openGated := false
 	for _, g := range gatesOf(p, rn.Body.List) {
@@ -881,9 +883,9 @@ func checkEnvelope(r *Run, p *packages.Package, cg *CallGraph, decls map[string]
 				}
 			}
 			// `if err := requireEncryptedArchiveEOF(…); err != nil { return err }`
-			if ifs.Init != nil && stmtHasCall(ifs.Init, func(c *ast.CallExpr) bool {
+			if ifs.Init != nil && eofGate != nil && stmtHasCall(ifs.Init, func(c *ast.CallExpr) bool {
 				fn := calleeOf(p.TypesInfo, c)
-				return fn != nil && fn.Name() == "requireEncryptedArchiveEOF"
+				return fn != nil && p.TypesInfo.Defs[eofGate.Name] == types.Object(fn.Origin())
 			}) {
 				hasEOF = true
 			}
@@ -1363,4 +1365,75 @@ func checkStrictDocumentDecoding(r *Run, p *packages.Package, reach map[*types.F
 	}
 	_ = reach
 	_ = cg
+}
+
+// envelopeFrameReader: the function of the package whose statements include `…, err := <aead>.Open(…)` behind an error
+// gate that leaves.
+func envelopeFrameReader(p *packages.Package) *ast.FuncDecl {
+	var found *ast.FuncDecl
+	for _, f := range p.Syntax {
+		for _, d := range f.Decls {
+			fd, ok := d.(*ast.FuncDecl)
+			if !ok || fd.Body == nil {
+				continue
+			}
+			for _, g := range gatesOf(p, fd.Body.List) {
+				if g.Callee == "Open" && g.Returns && g.Call != nil && len(g.Call.Args) >= 2 {
+					if fn := calleeOf(p.TypesInfo, g.Call); fn == nil || fn.Pkg() != p.Types {
+						found = fd
+					}
+				}
+			}
+		}
+	}
+	return found
+}
+
+// envelopeEOFGate: the same-package function, called by the frame reader, that returns only an error and looks at
+// io.EOF — the check that nothing follows the final frame.
+func envelopeEOFGate(p *packages.Package, frameReader *ast.FuncDecl) *ast.FuncDecl {
+	info := p.TypesInfo
+	byObj := map[types.Object]*ast.FuncDecl{}
+	for _, f := range p.Syntax {
+		for _, d := range f.Decls {
+			if fd, ok := d.(*ast.FuncDecl); ok && fd.Body != nil {
+				byObj[info.Defs[fd.Name]] = fd
+			}
+		}
+	}
+	var gate *ast.FuncDecl
+	ast.Inspect(frameReader.Body, func(n ast.Node) bool {
+		call, ok := n.(*ast.CallExpr)
+		if !ok {
+			return true
+		}
+		fn := calleeOf(info, call)
+		if fn == nil || fn.Pkg() != p.Types {
+			return true
+		}
+		sig := fn.Type().(*types.Signature)
+		if sig.Results().Len() != 1 || !types.Identical(sig.Results().At(0).Type(), types.Universe.Lookup("error").Type()) {
+			return true
+		}
+		hd := byObj[fn.Origin()]
+		if hd == nil {
+			return true
+		}
+		mentionsEOF := false
+		ast.Inspect(hd.Body, func(m ast.Node) bool {
+			if sel, ok := m.(*ast.SelectorExpr); ok && sel.Sel.Name == "EOF" {
+				if id, ok := sel.X.(*ast.Ident); ok {
+					if pn, ok := info.Uses[id].(*types.PkgName); ok && pn.Imported().Path() == "io" {
+						mentionsEOF = true
+					}
+				}
+			}
+			return true
+		})
+		if mentionsEOF {
+			gate = hd
+		}
+		return true
+	})
+	return gate
 }
